@@ -860,6 +860,7 @@ func init() {
 			items := []Item{
 				{Name: "zoo", MaxDevs: -1, Run: c06ZooScenario(false)},
 				{Name: "frontends", MaxDevs: -1, Run: c06FrontScenario()},
+				{Name: "long-nested-paths", MaxDevs: -1, Run: c06LongNestedPathsScenario},
 			}
 			hl := 1
 			if tier == "thorough" {
@@ -874,4 +875,48 @@ func init() {
 			return items
 		},
 	})
+}
+
+// "...valid configuration such as long field names never panics": records nested three deep whose key lengths
+// are chosen around the sizes a path buffer might have (1, 20, 23, 31, 32, 40, 63 bytes each), the innermost
+// leaf missing / failing / valid, through a Go map and a JSON document: Parse returns.
+func c06LongNestedPathsScenario(x *mc.X) *mc.Outcome {
+	zh.Reset()
+	zh.Install(x, zh.PoolLIFO, zh.OrderSorted)
+	lens := []int{1, 20, 23, 31, 32, 40, 63}
+	l1, l2, l3 := lens[x.Choose(len(lens), "outer key length")], lens[x.Choose(len(lens), "middle key length")], lens[x.Choose(len(lens), "leaf key length")]
+	leaf := x.Choose(3, "leaf") // 0 missing (required), 1 failing, 2 valid
+	viaJSON := x.Bool("json")
+	name := func(n int, c string) string { return strings.ToUpper(c) + strings.Repeat(c, n-1) }
+	k1, k2, k3 := name(l1, "a"), name(l2, "b"), name(l3, "c")
+	inner := reflect.StructOf([]reflect.StructField{{Name: k3, Type: reflect.TypeOf("")}, {Name: "Items", Type: reflect.TypeOf([]string(nil))}})
+	mid := reflect.StructOf([]reflect.StructField{{Name: k2, Type: inner}})
+	outer := reflect.StructOf([]reflect.StructField{{Name: k1, Type: mid}})
+	sc := z.Struct(z.Schema{k1: z.Struct(z.Schema{k2: z.Struct(z.Schema{k3: z.String().Min(3).Required(), "Items": z.Slice(z.String().Min(3))})})})
+	in3 := map[string]any{"Items": []any{"ok-item", "x"}}
+	switch leaf {
+	case 1:
+		in3[k3] = "x"
+	case 2:
+		in3[k3] = "long enough"
+	}
+	in := map[string]any{k1: map[string]any{k2: in3}}
+	d := reflect.New(outer)
+	var issues int
+	msg, where := c06Guard(func() {
+		var data any = in
+		if viaJSON {
+			b, _ := json.Marshal(in)
+			data = zjson.Decode(strings.NewReader(string(b)))
+		}
+		issues = len(sc.Parse(data, d.Interface()))
+	})
+	zh.Reset()
+	out := &mc.Outcome{Traces: 1, Nontrivial: true, Sig: fmt.Sprintf("longpaths|%d|%d|%d|%d|%v", l1, l2, l3, leaf, viaJSON)}
+	out.Sample = map[string]any{"key_lengths": []int{l1, l2, l3}, "leaf": leaf, "json": viaJSON, "issues": issues}
+	if msg != "" {
+		x.Note("records nested three deep with keys of %d, %d and %d bytes; leaf %d (0 missing, 1 failing, 2 valid); through JSON=%v", l1, l2, l3, leaf, viaJSON)
+		out.Viol = append(out.Viol, &mc.Violation{Key: "C06:panic:long-nested-paths:" + where + ":" + c06MsgClass(msg), What: "Parse panicked on a record with long (valid) nested field names", Expected: "issues or success", Observed: msg})
+	}
+	return out
 }
